@@ -106,6 +106,8 @@ type Dump struct {
 	// logical state, the stored bytes legitimately differ between replicas and
 	// acknowledged PFADDs may still sit in the write-back cache
 	PF map[string]int64 `json:"pf,omitempty"`
+	// HLEN / LLEN / SCARD / ZCARD of the collection keys (the stored size meta)
+	Card map[string]int64 `json:"card,omitempty"`
 }
 
 func vnodeFatal(code int, format string, args ...interface{}) int {
@@ -389,6 +391,22 @@ func (h *vnodeHarness) dump(w http.ResponseWriter, req *http.Request) {
 	json.NewEncoder(w).Encode(d)
 }
 
+func (h *vnodeHarness) card(kvn *node.KVNode, d *Dump, cmd, k, fullKey string) error {
+	v, err := h.read(kvn, cmd, fullKey)
+	if err != nil {
+		return fmt.Errorf("%s %s: %v", cmd, k, err)
+	}
+	n, ok := v.(int64)
+	if !ok {
+		return fmt.Errorf("%s %s: reply %v", cmd, k, v)
+	}
+	if d.Card == nil {
+		d.Card = map[string]int64{}
+	}
+	d.Card[k] = n
+	return nil
+}
+
 func (h *vnodeHarness) doDump(kvn *node.KVNode, hll map[string]bool) (d *Dump, err error) {
 	defer func() {
 		if r := recover(); r != nil {
@@ -457,6 +475,9 @@ func (h *vnodeHarness) doDump(kvn *node.KVNode, hll map[string]bool) (d *Dump, e
 			m[fl[i]] = fl[i+1]
 		}
 		d.Hash[k] = m
+		if err := h.card(kvn, d, "hlen", k, full(k)); err != nil {
+			return nil, err
+		}
 	}
 	if keys, err = h.scanKeys(kvn, "LIST"); err != nil {
 		return nil, err
@@ -471,6 +492,9 @@ func (h *vnodeHarness) doDump(kvn *node.KVNode, hll map[string]bool) (d *Dump, e
 			return nil, fmt.Errorf("lrange %s: %v", k, err)
 		}
 		d.List[k] = l
+		if err := h.card(kvn, d, "llen", k, full(k)); err != nil {
+			return nil, err
+		}
 	}
 	if keys, err = h.scanKeys(kvn, "SET"); err != nil {
 		return nil, err
@@ -486,6 +510,9 @@ func (h *vnodeHarness) doDump(kvn *node.KVNode, hll map[string]bool) (d *Dump, e
 		}
 		sort.Strings(l)
 		d.Set[k] = l
+		if err := h.card(kvn, d, "scard", k, full(k)); err != nil {
+			return nil, err
+		}
 	}
 	if keys, err = h.scanKeys(kvn, "ZSET"); err != nil {
 		return nil, err
@@ -504,6 +531,9 @@ func (h *vnodeHarness) doDump(kvn *node.KVNode, hll map[string]bool) (d *Dump, e
 			ps = append(ps, [2]string{l[i], l[i+1]})
 		}
 		d.ZSet[k] = ps
+		if err := h.card(kvn, d, "zcard", k, full(k)); err != nil {
+			return nil, err
+		}
 	}
 	return d, nil
 }
